@@ -62,7 +62,12 @@ def _arg_class(ev):
         if k in ev and isinstance(ev[k], int):
             out.append("%s=%s" % (k, cls(ev[k], n)))
     if "t" in ev:
-        out.append("t=%s" % ev["t"])
+        # for shape changes only the validity class of the type matters
+        if ev.get("e") in ("Resize", "Init", "AllocInit"):
+            if ev["t"] == "BAD":
+                out.append("t=BAD")
+        else:
+            out.append("t=%s" % ev["t"])
     if "to" in ev:
         out.append("to=%s" % ev["to"])
     if ev.get("e") == "Convert":
@@ -139,7 +144,7 @@ def issues_from_validation(ctx, res, label, family_prop):
                                           _arg_class(ev), extra)
             if field in ("refusal", "ok", "cb") or ev.get("ok") == 0:
                 props.add("C11")
-            if field in ("matchesDirectCall", "relationHolds", "chainAgrees",
+            if field in ("matchesDirectCall", "directCallImpedances", "relationHolds", "chainAgrees",
                          "inPlaceEqualsOutOfPlace", "shape"):
                 props = {"C05"}
             what = ("%s: recorded call not explained by NetData at '%s' "
